@@ -184,6 +184,14 @@ func runC08(e *Engine, r *Report) {
 						if f.Name() == "Term" {
 							r.check(fieldV(termF)(st.Val), "TBL-ssmeta", "SSMeta.Term = applied term", e.ipos(in), "snapshot term is the applied term", "SSMeta.Term is not the applied term")
 						}
+						if f.Name() == "Membership" && strings.HasSuffix(f.Pkg().Path(), "internal/rsm") {
+							// the captured membership is a private deep copy, never the live maps
+							getM := e.Func("(*internal/rsm.membership).get")
+							dc := e.Func("internal/rsm.deepCopyMembership")
+							okc := (getM != nil && e.callV(getM)(st.Val)) || (dc != nil && e.callV(dc)(st.Val))
+							r.check(okc, "OWN-members-copy", "SSMeta.Membership captured in getSSMeta is a deep copy", e.ipos(in),
+								"later config changes cannot leak into the snapshot's membership", "the snapshot metadata shares the live membership maps: a config change applied after the snapshot index changes the membership of the older snapshot record")
+						}
 					}
 				}
 			})
@@ -315,6 +323,8 @@ func runC08(e *Engine, r *Report) {
 	ruleSnapshotStatusReported(e, r)
 	ruleShrunkPredicate(e, r)
 	ruleSyncUnconditional(e, r)
+	ruleReadyToStream(e, r)
+	ruleRestoreRegistersAll(e, r)
 }
 
 func derefNamed(t types.Type) types.Type {
